@@ -37,7 +37,7 @@ Print Assumptions C02_peek_byte_no_ub.
 
 Theorem C02_tag_fetch_bytes_no_ub : forall tag off p lend dl mem,
   cursor_ok dl off -> (tag = 2 ^ 64 - 1 \/ 0 <= tag <= off) ->
-  is_ub (c_ares_buf_tag_fetch_bytes tag off p lend dl mem) = false.
+  is_ub (c_ares_buf_tag_fetch_bytes tag p off lend dl mem) = false.
 Proof. exact tag_fetch_bytes_no_ub. Qed.
 Print Assumptions C02_tag_fetch_bytes_no_ub.
 
